@@ -30,6 +30,7 @@ fn generators(cfg: &Cfg) -> Vec<Generator> {
     vec![
         Generator { name: "rename", total: cfg.tier.pick(700, 30_000), run: run_rename, case_cpu_limit_s: 120 },
         Generator { name: "hygiene", total: probes().len() as u64, run: run_probe, case_cpu_limit_s: 60 },
+        Generator { name: "placement", total: placement_probes().len() as u64, run: run_placement, case_cpu_limit_s: 60 },
     ]
 }
 
@@ -274,5 +275,61 @@ fn run_probe(_cfg: &Cfg, index: u64, stats: &mut Stats) {
             index,
             detail: json!({"probe": probe.name, "verdict": analyzed.verdict.brief(), "sources": sources.to_json()}),
         });
+    }
+}
+
+/* ------------------------------------ placement of `that` ------------------------------------ */
+
+/// Where a `that` binding may be written and what it then means: it belongs to the nearest enclosing `begin`, is visible
+/// throughout that block (also before its text and in sibling contributions), shadows outer names there, and renaming it
+/// consistently changes nothing. Each probe is a pair of spellings of one program (a fresh name / a name that shadows an
+/// unrelated outer binder) with the exit code both must produce.
+fn placement_probes() -> Vec<(&'static str, String, String, i64)> {
+    let mut v: Vec<(&'static str, String, String, i64)> = Vec::new();
+    let mut pair = |name: &'static str, template: &str, code: i64| {
+        v.push((name, template.replace("NAME", "w"), template.replace("NAME", "v"), code));
+    };
+    // a `that` written inside the bindee of another contribution, without a `begin` of its own
+    pair("in-def-bindee", "let v : Int64 = 7 in\nbegin\n  def ! f (a : Int64) : Ret Int64 =\n    let NAME : Int64 = 2 that\n    ! add a NAME\n  that\n  do r <- ! f 1;\n  ! exit r\nend\n", 3);
+    // … and used by a sibling contribution written before it
+    pair("in-def-bindee-used-by-sibling", "let v : Int64 = 7 in\nbegin\n  def ! g : Ret Int64 = ! add NAME 10 that\n  def ! f (a : Int64) : Ret Int64 =\n    let NAME : Int64 = 2 that\n    ! add a NAME\n  that\n  do r <- ! g;\n  ! exit r\nend\n", 12);
+    // inside the bindee of a `let .. that`
+    pair("in-let-bindee", "let v : Int64 = 7 in\nbegin\n  let t = { let NAME : Int64 = 4 that ! add NAME 1 } that\n  do r <- ! t;\n  ! exit r\nend\n", 5);
+    // under `let .. in` and `do` of the block body
+    pair("under-let-in", "let v : Int64 = 7 in\nbegin\n  let k = 1 in\n  let NAME : Int64 = 6 that\n  do r <- ! add NAME k;\n  ! exit r\nend\n", 7);
+    pair("under-do", "let v : Int64 = 7 in\nbegin\n  do k <- ret 1;\n  let NAME : Int64 = 8 that\n  do r <- ! add NAME k;\n  ! exit r\nend\n", 9);
+    // used textually before it is written
+    pair("used-before-written", "let v : Int64 = 7 in\nbegin\n  do r <- ! add NAME 1;\n  let NAME : Int64 = 10 that\n  ! exit r\nend\n", 11);
+    // a nested block keeps its own `that`: the outer name is what the outer body sees
+    pair("nested-block-keeps-its-own", "let NAME : Int64 = 7 in\nbegin\n  def ! f (a : Int64) : Ret Int64 = begin\n    let NAME : Int64 = 2 that\n    ! add a NAME\n  end that\n  do r <- ! f NAME;\n  ! exit r\nend\n", 9);
+    // inside a thunk of the body
+    pair("in-thunk-of-body", "let v : Int64 = 7 in\nbegin\n  let t = { let NAME : Int64 = 3 that ! add NAME NAME } that\n  do r <- ! t;\n  ! exit r\nend\n", 6);
+    v
+}
+
+fn run_placement(_cfg: &Cfg, index: u64, stats: &mut Stats) {
+    let all = placement_probes();
+    let (name, fresh, shadowing, code) = &all[index as usize];
+    stats.nontrivial(format!("placement/{name}").as_bytes());
+    stats.cover("placement_probes", name);
+    for (spelling, body) in [("fresh-name", fresh), ("shadowing-name", shadowing)] {
+        let sources = Sources::single(format!("{}{}", MiniPrelude::core().text(), body));
+        let result = pipeline::check_and_run(&sources, b"", &[], 200_000);
+        stats.evaluations += 1;
+        let ok = matches!((&result.verdict, &result.run), (Verdict::Checked, Some(run)) if run.end == End::Exit(*code as i32));
+        if !ok {
+            let signature = match &result.verdict {
+                | Verdict::Checked => "that-placement-changes-behaviour".to_string(),
+                | Verdict::Panic(p) => format!("front-end-panic {}", p.site()),
+                | v => format!("that-placement-rejected {}", v.brief().lines().next().unwrap_or("").chars().take(50).collect::<String>()),
+            };
+            stats.violation(Violation {
+                signature,
+                tags: vec![format!("{name}/{spelling}")],
+                generator: "placement".into(),
+                index,
+                detail: json!({"probe": name, "spelling": spelling, "expected_exit": code, "verdict": result.verdict.brief(), "observed_end": result.run.as_ref().map(|r| format!("{:?}", r.end)), "sources": sources.to_json()}),
+            });
+        }
     }
 }
